@@ -44,12 +44,78 @@ def run(ck: Checker, prog: Program, tier: str):
     _r3(ck, prog)
     _r4(ck, prog)
     ck.guard(_option_forwarding, ck, prog, funcs)
+    ck.guard(_azimuthal_drawings, ck, prog)
     # the mean-curve peak that is drawn and tabulated is searched inside the object's search range (rule of C08)
     from . import c08
     with ck.borrow(c08, "C20.R3+"):
         ck.guard(c08._r3, ck, prog)
     ck.extra["calls_resolved"] = eng.calls_resolved
     ck.extra["externals_assumed_pure"] = dict(eng.assumed_pure)
+
+
+def _azimuthal_drawings(ck: Checker, prog: Program):
+    """What the azimuthal figures and the pre/post-rejection figure read from the object, by value: (a) the surface is
+    frequency x [azimuths, 180] with the object's mean curves by azimuth, closed at 180 degrees by the curve of the *first*
+    azimuth (0 and 180 degrees are the same direction); (b) the peak markers are the object's `mean_curve_peak_by_azimuth` for the
+    distribution in force, not a maximum read off the drawn surface (that ignores the search range); (c) the waveform panels are
+    coloured by the object's *window* mask."""
+    from ..resolve import Resolver, canon
+    from ..astutil import bind_call
+    R_ = "C20.R3"
+    # (a)
+    f = prog.func("postprocessing._azimuthal_mesh_from_hvsr")
+    rets = [r for r in own_nodes(f.node) if isinstance(r, ast.Return)]
+    if len(rets) != 1:
+        raise AnalysisError(f"{f.qualname}: expected one return")
+    RR = Resolver(prog, f, inline=False)
+    got = canon(RR.value(rets[0].value, rets[0]))
+    E = lambda src: canon(RR.expect(src))     # noqa: E731
+    M = "hvsr.mean_curve_by_azimuth(distribution=distribution_mc)"
+    wants = [E(f"(np.meshgrid(hvsr.frequency, [*hvsr.azimuths, 180.])[0], np.meshgrid(hvsr.frequency, [*hvsr.azimuths, 180.])[1], np.vstack(({M}, {M}[0])))")]
+    third_ok = None
+    if isinstance(got, sp.Tuple) and len(got) == 3:
+        w3 = wants[0][2]
+        alts = [w3, canon(RR.expect(f"np.vstack(({M}, {M}[0:1]))")), canon(RR.expect(f"np.vstack([{M}, {M}[0]])")), canon(RR.expect(f"np.concatenate(({M}, {M}[:1]))"))]
+        third_ok = got[2] in alts
+    if third_ok:
+        ck.ok(R_, f.qualname, "surface = mean curves by azimuth, closed at 180 degrees by the first azimuth's curve")
+    elif third_ok is False:
+        ck.violation(R_, f.qualname, "azimuthal surface", f"the surface drawn is {str(got[2])[:160]}; expected the object's mean curves by azimuth with the first azimuth's "
+                     f"curve repeated at 180 degrees", loc=f.loc(rets[0]))
+    else:
+        raise AnalysisError(f"{f.qualname}: the mesh is not returned as (frequency mesh, azimuth mesh, amplitude mesh)")
+    # (b)
+    n = 0
+    for name in ("plot_azimuthal_contour_2d", "plot_azimuthal_contour_3d"):
+        g = prog.func(f"postprocessing.{name}")
+        blocks = [x for x in own_nodes(g.node) if isinstance(x, ast.If) and isinstance(x.test, ast.Name) and x.test.id == "plot_mean_curve_peak_by_azimuth"]
+        if len(blocks) != 1:
+            raise AnalysisError(f"{g.qualname}: the block that draws the peak markers is not recognised")
+        cs = [c for b in blocks[0].body for c in calls_in(b, "mean_curve_peak_by_azimuth")]
+        n += 1
+        if len(cs) == 1 and isinstance(cs[0].func, ast.Attribute) and unparse(cs[0].func.value) == "hvsr" and \
+                unparse(kwarg(cs[0], "distribution") or (cs[0].args[0] if cs[0].args else ast.Constant(value=None))) == "distribution_mc":
+            ck.ok(R_, g.qualname, "peak markers = hvsr.mean_curve_peak_by_azimuth(distribution=distribution_mc)")
+        else:
+            ck.violation(R_, g.qualname, "peak markers by azimuth", "the peak markers are not the object's mean_curve_peak_by_azimuth(distribution=distribution_mc): "
+                         "what is marked need not be the peak the object reports (search range, find_peaks settings)", loc=g.loc(blocks[0]))
+    # (c)
+    g = prog.func("postprocessing.plot_pre_and_post_rejection")
+    cs = calls_in(g.node, "plot_seismic_recordings_3c")
+    if len(cs) != 1:
+        raise AnalysisError(f"{g.qualname}: expected one call of plot_seismic_recordings_3c")
+    tgt = prog.func("postprocessing.plot_seismic_recordings_3c")
+    b = bind_call(cs[0], tgt.params)
+    mv = b.get("valid_window_boolean_mask")
+    RG = Resolver(prog, g, inline=False)
+    st = cs[0]
+    while not isinstance(st, ast.stmt):
+        st = parent_of(st)
+    if mv is not None and canon(RG.value(mv, st)) == canon(RG.expect("hvsr.valid_window_boolean_mask")):
+        ck.ok(R_, g.qualname, "waveform panels coloured by hvsr.valid_window_boolean_mask")
+    else:
+        ck.violation(R_, g.qualname, "mask of the waveform panels", f"the waveform panels are coloured by `{unparse(mv) if mv is not None else None}`, not by the object's "
+                     f"window mask: an accepted window is drawn as rejected (or the reverse)", loc=g.loc(cs[0]))
 
 
 def _read_only(ck: Checker, prog: Program):
